@@ -569,3 +569,32 @@ package control
 //@   at call builtin:delete#1 assert has(t.entries, key) && t.entries[key] == entry && entry != nil && !entry.deleting && entry.refs <= 1
 //@   loop 1
 //@     invariant t.entries != nil && nonnilvals(t.entries)
+
+// per-flow overflow FIFO (under enqueueMu): pop returns the oldest spilled task and keeps all the others,
+// in order; nothing is dropped by the capacity housekeeping
+//@ func (*UdpTaskQueue).popOverflowTask
+//@   requires q != nil
+//@   modifies *
+//@   ensures old(len(q.overflow)) == 0 ==> !result1 && len(q.overflow) == 0
+//@   ensures old(len(q.overflow)) > 0 ==> result1 && result0 == old(q.overflow[0]) && len(q.overflow) == old(len(q.overflow)) - 1
+//@   ensures forall i int {q.overflow[i]} :: 0 <= i && i < len(q.overflow) ==> q.overflow[i] == old(q.overflow[i+1])
+
+// an endpoint is evicted only if it is the very endpoint published under the key (a re-created one is kept)
+//@ func (*UdpEndpointPool).Remove
+//@   requires p != nil && udpEndpoint != nil
+//@   anchorsonly
+//@   dyncalls noeffect
+//@   modifies *
+//@   at call builtin:delete#1 assert has(shard.pool, key) && shard.pool[key] == udpEndpoint
+
+// once a flow is in overflow mode every accepted task goes to the tail of the FIFO (never past queued ones);
+// when the channel is full the flow switches to overflow mode with the task at the tail
+//@ func (*UdpTaskQueue).enqueue
+//@   requires q != nil
+//@   dyncalls noeffect
+//@   modifies *
+//@   ensures old(q.overflowMode) ==> q.overflowMode && len(q.overflow) == old(len(q.overflow)) + 1 && q.overflow[old(len(q.overflow))] == task
+//@   ensures old(q.overflowMode) ==> (forall i int {q.overflow[i]} :: 0 <= i && i < old(len(q.overflow)) ==> q.overflow[i] == old(q.overflow[i]))
+//@   ensures len(q.overflow) == old(len(q.overflow)) || (q.overflowMode && len(q.overflow) == old(len(q.overflow)) + 1 && q.overflow[old(len(q.overflow))] == task)
+//@ func (*UdpTaskQueue).notifyWake
+//@   requires q != nil
